@@ -1274,6 +1274,13 @@ def part_values(ctx, U, D, clean, observed, use_driver=True):
 
 
 def real_matches(types, sig):
+    try:
+        return _real_matches(types, sig)
+    except TypeError:      # a signature the real dispatcher would raise on is not a match
+        return False
+
+
+def _real_matches(types, sig):
     n = len(types)
     if len(sig) == n and all(map(issubclass, types, sig)):
         return True
